@@ -144,6 +144,23 @@ def gen_prog(rng, kind, peerdown):
     return " ".join(gen_block(rng, kind, [], 3, "ret", rng.range(1, 5), peerdown))
 
 
+def prov_clause(rng, asns):
+    """A leading statement whose effect depends on prov.peer_asn() only: an else-less `if` (never 'diverging' for
+    roto 0.4.0) on the peer AS - or on its negation - that logs and/or returns. With it in front, verdict AND output
+    of the filter depend on the provenance the call site hands over, whatever the message is."""
+    a = "#%d" % rng.choice(asns)
+    cond = ["pasn", a] if rng.chance(75) else ["not", "pasn", a]
+    outs = []
+    for _ in range(rng.below(3)):
+        outs += ["out"] + rng.choice([["asn", a], ["custom", "#%d" % rng.choice(TYPES["u32"]), "#%d" % rng.choice(TYPES["u32"])],
+                                      ["origin", a]])
+    k = rng.weighted([("ret", 70), ("log", 30)])
+    if k == "log" and not outs:
+        outs = ["out", "asn", a]
+    tail = ["ret", rng.choice(["R", "R", "A"])] if k == "ret" else ["end"]
+    return " ".join(["if"] + cond + outs + tail + ["end"])
+
+
 def gen_attrs(rng, legacy=False):
     if rng.chance(12):
         path = "-"
@@ -166,7 +183,7 @@ def gen_input(rng, kind):
         return "R %d %s" % (rng.choice(PFXS), gen_attrs(rng))
     if kind == "bgp":
         return "G %d %s %d %d" % (rng.choice(ASNS), gen_attrs(rng), rng.below(4), rng.below(3))
-    k = rng.weighted([("rm", 60), ("pd", 10), ("pu", 8), ("stats", 8), ("init", 7), ("term", 7)])
+    k = rng.weighted([("rm", 52), ("pd", 10), ("pu", 8), ("stats", 9), ("mirror", 9), ("init", 6), ("term", 6)])
     if k == "rm":
         legacy = rng.chance(25)
         return "M rm %d %d %s %d %d" % (rng.choice(ASNS16 if legacy else ASNS), 1 if legacy else 0, gen_attrs(rng, legacy),
@@ -180,6 +197,8 @@ def gen_c10(rng, tier):
     for i in range(n):
         kind = ["rib", "bgp", "bmp"][i % 3]
         prog = gen_prog(rng, kind, peerdown=8)
+        if kind != "rib" and rng.chance(30):
+            prog = prov_clause(rng, ASNS + [0]) + " " + prog
         ins = [gen_input(rng, kind) for _ in range(rng.range(6, 12))]
         yield ";".join(["F %s %s" % (kind, prog)] + ins)
 
@@ -220,6 +239,10 @@ def corpus_c10():
         "G 65001 s65001.65536/4294902426/-/- 1 0;G 65001 s65536.65001/7/-/- 2 1;G 65001 -/-/-/- 0 2",
         "F bmp let asn 12345 let asn 65536 let com 4294902426 if pd out peerdown end end if ibgp $0 ret R if asc $1 out asn $1 end end if com $2 out comm $2 end end ret A end;"
         "M pd 65001 0 -/-/-/- 0 0;M rm 12345 0 s65536/-/-/- 1 0;M rm 65001 0 s65001.65536/4294902426/-/- 1 0;M init 0 0 -/-/-/- 0 0;M rm 65001 0 s65001/-/-/- 0 2",
+        # peer_asn / is_ibgp on every message type, Route Mirroring included
+        "F bmp if pasn #12345 out asn #12345 ret R end if ibgp #65001 out custom #1 #1 end end ret A;M stats 12345 0 -/-/-/- 0 0;"
+        "M mirror 12345 0 -/-/-/- 0 0;M mirror 65001 0 -/-/-/- 0 0;M pd 12345 0 -/-/-/- 0 0;M pu 12345 0 -/-/-/- 0 0;M init 0 0 -/-/-/- 0 0;"
+        "M term 0 0 -/-/-/- 0 0;M rm 12345 0 s65001/-/-/- 1 0;M stats 65001 0 -/-/-/- 0 0",
         # the refuted lemma: AS-path predicate of a bmp-in filter on a 2-octet peer's message
         "F bmp if asc #65001 ret R end ret A;M rm 65002 1 s65001.65002/-/-/- 1 0;M rm 65002 0 s65001.65002/-/-/- 1 0",
         # AS_SET as origin, empty path, attribute codes
@@ -294,12 +317,16 @@ def gen_c10bmp(rng, tier):
         if prog != "none" and rng.chance(65):
             # session messages pass, so that the session gets far enough for the filter to matter on routes
             prog = "if not or rm pd ret A end " + prog
+        if prog != "none" and rng.chance(45):
+            # verdict and output depend on the provenance: the peer AS of one of the three peers, AS0 (what a
+            # message without per-peer header carries), or an AS nobody has
+            prog = prov_clause(rng, [65001, 65001, 65002, 174, 174, 0, 12345]) + " " + prog
         ops = ["F bmp %s" % prog, "I"] if rng.chance(92) else ["F bmp %s" % prog]
         tag = 1
         pool = [rng.choice(PFXS) for _ in range(3)]
         up = set()
         for _ in range(rng.range(4, 12)):
-            k = rng.weighted([("U", 22), ("R", 45), ("D", 10), ("S", 8), ("I", 4), ("T", 4)])
+            k = rng.weighted([("U", 20), ("R", 40), ("D", 10), ("S", 10), ("X", 10), ("I", 4), ("T", 4)])
             if k in ("I", "T"):
                 ops.append(k)
                 continue
@@ -343,6 +370,18 @@ def classify_bmp(case, out):
         ks.append("reached-updating")
     if any(o.startswith("R 1 ") for o in case.split(";")):
         ks.append("legacy-peer-route")
+    if any(o.startswith("S ") for o in case.split(";")):
+        ks.append("statistics-report")
+    if any(o.startswith("X ") for o in case.split(";")):
+        ks.append("route-mirroring")
+    if " pasn " in case.split(";")[0]:
+        ks.append("reads-provenance")
+        # a per-peer message the state machine ignores whose output shows what the filter made of the provenance
+        ops = case.split(";")[1:]
+        for k, o in enumerate(ops):
+            if o[:2] in ("S ", "X ") and 4 * k < len(toks) and toks[4 * k] != "out:[]":
+                ks.append("provenance-output-on-stats-or-mirror")
+                break
     return ks
 
 
@@ -359,6 +398,13 @@ def corpus_c10bmp():
         "F bmp if rm ret A end ret R;I;U 0;R 0 5 s65001.65003/-/-/- %d -" % P,
         # log_peer_down on a message that is not a Peer Down Notification
         "F bmp out peerdown ret A;I;U 0;D 0",
+        # "reject and log everything about AS65001": every message type about the peer, Statistics Report and Route
+        # Mirroring included, is logged and kept from the state machine (processed counter); other peers' pass
+        "F bmp let asn 65001 if pasn $0 out asn $0 ret R ret A end;I;U 0;U 2;R 0 5 s65001.65003/-/-/- %d -;S 0;X 0;S 2;X 2;D 0;D 2;T" % P,
+        # messages without a per-peer header carry the connection's provenance: AS0
+        "F bmp if pasn #0 out custom #1 #2 end end if pasn #174 out custom #5 #9 ret R end ret A;I;S 2;X 2;S 0;X 1;T",
+        # Statistics Report / Route Mirroring before Initiation: invalid for the state machine if the filter lets them through
+        "F bmp if pasn #65002 ret R end ret A;S 1;X 1;S 0;X 0;I;X 0",
     ]
 
 
